@@ -23,5 +23,17 @@ for p in /verif/selftest/mustfail/*.patch /verif/selftest/benign/*.patch; do
     if echo "$out" | grep "^VIOLATION" | grep -q "$want"; then echo "ok   mustfail $(basename $p) -> $(echo "$out" | grep '^VIOLATION' | grep "$want" | head -1 | sed 's/.*replays.//')"; else echo "SELFTEST FAIL (missed): $(basename $p) expected $want; got: $(echo "$out" | tail -2)"; rc=1; fi
   fi
 done
+# the seeded changes written by independent sub-agents (/verif/seeded/<prop>-<n>/patch.diff) must stay caught
+for d in /verif/seeded/*/; do
+  p=$d/patch.diff
+  [ -f "$p" ] || continue
+  case "$p" in *"$only"*) ;; *) continue;; esac
+  prop=$(basename $d | cut -d- -f1)
+  rm -rf $S; mkdir -p $S; (cd /repo && git archive HEAD) | tar -x -C $S
+  if ! (cd $S && patch -p1 -s < "$p"); then echo "SELFTEST ERROR: $p does not apply"; rc=1; continue; fi
+  if ! (cd $S && GOFLAGS=-mod=mod GOPROXY=off go build ./... >/dev/null 2>&1); then echo "SELFTEST ERROR: $p does not compile"; rc=1; continue; fi
+  out=$(/verif/bin/rlverify check -repo $S "$prop" 2>&1)
+  if echo "$out" | grep -q "^VIOLATION property=$prop"; then echo "ok   seeded   $(basename $d) -> $(echo "$out" | grep '^VIOLATION' | head -1 | sed 's/.*replays.//')"; else echo "SELFTEST FAIL (missed): seeded $(basename $d); got: $(echo "$out" | tail -2)"; rc=1; fi
+done
 rm -rf $S /verif/tmp/scratch-run
 exit $rc
